@@ -11,13 +11,14 @@ RULE = ('same executions as C02 (bounded-exhaustive bisection sequences from 16 
         'that side in a geometric model rebuilt from the actual leaf rectangles (seam x=0 ~ x=L identified when '
         'glued); also: no duplicates, <= 2, symmetric, boundary flag <=> no neighbour <=> t=0/t=T/open end, every '
         'reported neighbour is a current leaf. distinct = distinct (initial mesh, tree signature) states + histories')
+RULE += ' ' + 'Also three chains of 1060 bisections towards t = 0 / x = 0 (every edge there has ~1000 ancestors); the reported neighbours are compared with a brute-force geometric rule on exact float comparisons at ten checkpoints.'
 ASSUMPTIONS = [
     'geometric neighbour rule: positive-length overlap of the shared side, on the float coordinates held in memory',
     'held on the executions observed; explored, not exhausted',
 ]
 REQUIRED = {
     'quick': ['edge:boundary', 'edge:one', 'edge:two', 'edge:seam', 'edge:finer', 'edge:coarser',
-              'random:glued', 'random:open', 'op:dorfler', 'source:repo-test-suite', 'deep:seam-last-top', 'deep:seam-first-top', 'deep:interior-top'],
+              'random:glued', 'random:open', 'op:dorfler', 'source:repo-test-suite', 'deep:seam-last-top', 'deep:seam-first-top', 'deep:interior-top', 'deep:1000-ancestors:time-to-0', 'deep:1000-ancestors:space-to-0'],
 }
 REQUIRED['thorough'] = REQUIRED['quick']
 TIMEOUT = {'quick': 900, 'thorough': 7200}
